@@ -62,6 +62,11 @@ type respClient struct {
 	SendAfter int
 	// MaxErrs: the drain gives up after this many errors in a row (default 4).
 	MaxErrs int
+	// Logical: the exchange runs on a logical channel (set up with SETUP / PROTACK) instead of channel 0.
+	Logical bool
+	// Render: the consumer uses what it receives the way a driver does: String() of every package and of every
+	// row / parameter value (direct calls: fmt would recover a panic).
+	Render bool
 }
 
 type respResult struct {
@@ -104,8 +109,21 @@ func runResp(cfg simrt.Config, d respDelivery, c respClient) *respResult {
 		c.DrainFor = 30 * time.Second
 	}
 	wire := res.Wire
+	var replyChannel uint16
 	// delivery plan: segments of the wire stream
 	deliver := func() {
+		if replyChannel != 0 {
+			// the response goes to the channel the request came from: patch the packet headers
+			w := append([]byte{}, wire...)
+			off := 0
+			for _, pk := range d.Packets {
+				if off+6 <= len(w) {
+					w[off+4], w[off+5] = byte(replyChannel>>8), byte(replyChannel)
+				}
+				off += len(pk)
+			}
+			wire = w
+		}
 		type seg struct {
 			b     []byte
 			pause bool
@@ -161,6 +179,7 @@ func runResp(cfg simrt.Config, d respDelivery, c respClient) *respResult {
 	p.OnMsg = func(m *ClientMsg) {
 		if !responded {
 			responded = true
+			replyChannel = m.Channel
 			deliver()
 		}
 	}
@@ -195,6 +214,12 @@ func runResp(cfg simrt.Config, d respDelivery, c respClient) *respResult {
 		if err != nil {
 			res.ConnErr = err.Error()
 			return
+		}
+		if c.Logical {
+			if ch, err = conn.NewChannel(); err != nil {
+				res.ConnErr = "logical channel: " + err.Error()
+				return
+			}
 		}
 		ctx, cancel := simrt.WithTimeout(context.Background(), c.DrainFor)
 		defer cancel()
@@ -289,6 +314,9 @@ func runResp(cfg simrt.Config, d respDelivery, c respClient) *respResult {
 				continue
 			}
 			consecutiveErrs = 0
+			if c.Render {
+				renderPkg(pkg)
+			}
 			if c.NoDump {
 				res.Recs = append(res.Recs, PkgRec{Type: "pkg", Now: simrt.SimNow()})
 				continue
@@ -445,4 +473,24 @@ func firstDiff(want, got []string) string {
 		}
 	}
 	return ""
+}
+
+// renderPkg uses a delivered package the way a database driver does.
+func renderPkg(pkg tds.Package) {
+	_ = pkg.String()
+	var fields []tds.FieldData
+	switch p := pkg.(type) {
+	case *tds.RowPackage:
+		fields = p.DataFields
+	case *tds.ParamsPackage:
+		fields = p.DataFields
+	}
+	for _, f := range fields {
+		if f == nil {
+			continue
+		}
+		if s, ok := f.Value().(fmt.Stringer); ok && s != nil {
+			_ = s.String()
+		}
+	}
 }
